@@ -19,7 +19,8 @@ RULE = ('estimated models with 2..8 states over all label alphabets, lag 1..4, e
         'cumulative matrix vs exact cumulative sums of the exact T (1e-12, interval of column k has length '
         'T[i,perm k]), N frames, first frame = start, labels of the input only, identical output from '
         'identical generator state. Non-trivial: >= 3 states and a row with a zero entry.'
-        ' Added classes: a transition of probability < 1e-5 (3.6e5 frames), > 64/128/256 states, user matrices with entries ~1e-6 (the table propagate_tmat really passes to the kernel is captured), related history first (the same frames joined/split, or as LumpedStateTraj, are sampled before).')
+        ' Added classes: a transition of probability < 1e-5 (3.6e5 frames), > 64/128/256 states, user matrices with entries ~1e-6 (the table propagate_tmat really passes to the kernel is captured), related history first (the same frames joined/split, or as LumpedStateTraj, are sampled before).'
+        ' Later: chains of 4097..9000 frames on models without self transitions, user matrices normalised only within 1e-8, StateTraj objects (negative gapped labels) whose trajectories were read before.')
 TRUSTED = ['uniformity and independence of the Mersenne twister draws (CPython / numba)',
            'the 1e-12 gap between float and exact cumulative sums is measured, not proved']
 ASSUMPTIONS = ['draws u in [0,1)']
